@@ -19,7 +19,10 @@ import lib
 PID = "C15"
 SIZE_MAX = 2**64 - 1
 SIZES = [0, 1, 7, 8, 9, 0x1000, 2**63, SIZE_MAX - 8, SIZE_MAX - 7, SIZE_MAX]
-MORE_SIZES = [2, 3, 0x10, 0x11, 0x40, 0xff8, 0xff9, 0x1001, SIZE_MAX - 9, SIZE_MAX - 15, 2**63 - 8, 2**32]
+# ... and sizes at which size arithmetic of a growth policy would wrap (x + x/2, 2x, x + x/4, x rounded up to a power of two)
+MORE_SIZES = [2, 3, 0x10, 0x11, 0x40, 0xff8, 0xff9, 0x1001, SIZE_MAX - 9, SIZE_MAX - 15, 2**63 - 8, 2**32,
+              SIZE_MAX // 3 * 2 + 1, SIZE_MAX // 3 * 2 + 2, SIZE_MAX // 3 * 2 + 9, SIZE_MAX // 3 * 2 + 64, SIZE_MAX // 3 * 2, SIZE_MAX // 3 + 1,
+              2**63 + 1, 2**63 + 8, 2**63 - 1, SIZE_MAX // 5 * 4 + 1, SIZE_MAX // 5 * 4 + 17, 2**62 + 1, 2**32 + 8, 2**32 - 8]
 R = 2**32
 PAIRS = [(0, 0), (0, 7), (1, 0), (2, 2), (3, 5), (7, 1), (1, 9), (0x10, 0x100), (0x40, 0x40), (8, 0x201),
          (R, R), (R, R - 1), (R - 1, R + 1), (R + 1, R), (R + 1, R - 1), (R + 1, R + 1), (R - 1, R - 1),
@@ -45,7 +48,7 @@ def request(cap, fails, ops):
 def random_history(rng, big):
     ops = []; fill = 1
     nops = rng.choice([4, 8, 12, 20, 40]) if not big else rng.choice([40, 80])
-    sizes = SIZES + (MORE_SIZES if rng.random() < 0.5 else []) + [rng.randint(0, 0x60)] * 3
+    sizes = SIZES + (MORE_SIZES if rng.random() < 0.5 else rng.sample(MORE_SIZES, 6)) + [rng.randint(0, 0x60)] * 3
     small = [x for x in sizes if x <= 0x1001]
     def size():
         return rng.choice(small) if rng.random() < 0.7 else rng.choice(sizes)
